@@ -58,20 +58,20 @@ def ULbl.eff (name : String) (n : NetSt) : ULbl → NetSt × List NEff
     | some u => (n.setUdp name (u.incoming p).1, (u.incoming p).2)
   | .sendTimer ab => n.udpSendWaitFired name ab
 
-structure HS where
+structure HdS where
   n       : NetSt
   started : List Nat := []                 -- ghost: handler ids given to initiating calls
   log     : List (Bool × Compl) := []      -- ghost: completions produced (inline?, completion)
   parked  : List Nat := []                 -- ghost (TCP): connect handlers bound into a connect timer's callback
 
-def HS.ids (s : HS) : List Nat := s.log.map (·.2.h)
+def HdS.ids (s : HdS) : List Nat := s.log.map (·.2.h)
 
-def US.step (name : String) (s : HS) (l : ULbl) : HS :=
+def US.step (name : String) (s : HdS) (l : ULbl) : HdS :=
   { n := (l.eff name s.n).1
     started := s.started ++ l.newId?.toList
     log := s.log ++ logOf (l.eff name s.n).2 }
 
-def US.run (name : String) (s : HS) (ls : List ULbl) : HS := ls.foldl (US.step name) s
+def US.run (name : String) (s : HdS) (ls : List ULbl) : HdS := ls.foldl (US.step name) s
 
 /-! ### all TCP sockets and acceptors of a network state -/
 
@@ -82,7 +82,7 @@ inductive WMid where
   | drop (p : Pkt)                                            -- `packet_dropped`
   deriving Repr
 
-inductive TLbl where
+inductive h4_HLbl where
   | newSock (name node : String) (isAcc : Bool)                 -- construct a socket / an acceptor
   | connect (now : Int) (name : String) (target : Ep) (h : Nat)
   | read (name : String) (op : ReadOp)
@@ -107,7 +107,7 @@ inductive TLbl where
   | refusedFired (h : Nat)                                      -- a connect timer's callback runs: refused
   deriving Repr
 
-def TLbl.newId? : TLbl → Option Nat
+def h4_HLbl.newId? : h4_HLbl → Option Nat
   | .connect _ _ _ h => some h
   | .read _ op => some op.h
   | .waitRead _ h => some h
@@ -119,7 +119,7 @@ def WMid.apply (tp : TParams) (name : String) (n : NetSt) : WMid → NetSt
   | .seg now hops sg => (n.tcpSendSeg now name hops sg).1
   | .drop p => n.tcpPacketDropped tp name p
 
-def TLbl.eff (tp : TParams) (n : NetSt) : TLbl → NetSt × List NEff
+def h4_HLbl.eff (tp : TParams) (n : NetSt) : h4_HLbl → NetSt × List NEff
   | .newSock name node isAcc => (n.setTcp name { node := node, acc := if isAcc then some {} else none }, [])
   | .connect now name target h => n.tcpConnect now name target h
   | .read name op => n.tcpAsyncRead name op
@@ -159,7 +159,7 @@ def parkedOf : List NEff → List Nat
   | .armTimer _ _ _ (.tcpConnectRefused _ h) :: rest => h :: parkedOf rest
   | _ :: rest => parkedOf rest
 
-def TS.step (tp : TParams) (s : HS) (l : TLbl) : HS :=
+def HTS.step (tp : TParams) (s : HdS) (l : h4_HLbl) : HdS :=
   { n := (l.eff tp s.n).1
     started := s.started ++ l.newId?.toList
     log := s.log ++ logOf (l.eff tp s.n).2
@@ -168,7 +168,7 @@ def TS.step (tp : TParams) (s : HS) (l : TLbl) : HS :=
       | .refusedFired h => s.parked.erase h
       | _ => s.parked }
 
-def TS.run (tp : TParams) (s : HS) (ls : List TLbl) : HS := ls.foldl (TS.step tp) s
+def HTS.run (tp : TParams) (s : HdS) (ls : List h4_HLbl) : HdS := ls.foldl (HTS.step tp) s
 
 /-- connections queued at acceptor `name` are valid channel ids (the C++ queue holds
     `shared_ptr<channel>`) -/
@@ -181,7 +181,7 @@ def accConnsOk (n : NetSt) (name : String) : Prop :=
     * the socket object a socket-returning accept creates is new; constructors create new objects;
     * packets carry, and accept queues hold, valid channels;
     * a connect timer's callback runs only for a handler that was bound into it. -/
-def TS.ok (s : HS) : TLbl → Prop
+def HTS.ok (s : HdS) : h4_HLbl → Prop
   | .newSock name _ _ => s.n.tcp? name = none
   | .connect _ name _ _ => ∃ s0, s.n.tcp? name = some s0 ∧ (s0.isOpen = true → s0.connectH = none)
   | .read name _ => (s.n.tcp? name).isSome
@@ -194,8 +194,8 @@ def TS.ok (s : HS) : TLbl → Prop
   | .refusedFired h => h ∈ s.parked
   | _ => True
 
-def TS.okRun (tp : TParams) : HS → List TLbl → Prop
+def HTS.okRun (tp : TParams) : HdS → List h4_HLbl → Prop
   | _, [] => True
-  | s, l :: rest => TS.ok s l ∧ TS.okRun tp (TS.step tp s l) rest
+  | s, l :: rest => HTS.ok s l ∧ HTS.okRun tp (HTS.step tp s l) rest
 
 end SimVerif
